@@ -32,7 +32,9 @@ def model_check(wd, T):
         base = base.replace("MaxGo = 3", "MaxGo = 4")
     runs = [("intended", base, False),
             ("DevNoUnmake", base.replace("DevNoUnmake = FALSE", "DevNoUnmake = TRUE"), True),
-            ("DevZeroBudget", base.replace("DevZeroBudget = FALSE", "DevZeroBudget = TRUE"), True)]
+            ("DevZeroBudget", base.replace("DevZeroBudget = FALSE", "DevZeroBudget = TRUE"), True),
+            ("DevStalePonder", base.replace("DevStalePonder = FALSE", "DevStalePonder = TRUE"), True),
+            ("DevRootRepetition", base.replace("DevRootRepetition = FALSE", "DevRootRepetition = TRUE"), True)]
 
     def one(r):
         name, cfg, expect_violation = r
@@ -45,7 +47,7 @@ def model_check(wd, T):
         violated = "Error:" in info["out"]
         return name, expect_violation, violated, info
 
-    for name, expect, violated, info in pmap(one, runs, 3):
+    for name, expect, violated, info in pmap(one, runs, 5):
         if expect and not violated:
             raise ToolError("EngineMC with %s=TRUE found no violation: the model does not explain the pinned defect" % name)
         if not expect:
